@@ -20,6 +20,9 @@ P = {
  "C01": dict(level="other", tech="table arithmetic against an independent opcode matrix + abstract interpretation of Step per opcode x M,X,E x interrupt cell: decoded length, live unknown-mode arms, dependence of outputs on stale register copies, unchanged-field / PC / SP / memory-write effect signatures, flag ranges",
    text="Structural necessary conditions only: decode table and decoded length per (opcode,M,X), one routine per mnemonic, no unknown-mode arm live, no flow from the non-authoritative copy of A/X/Y, per-mnemonic may-change sets with exact PC/SP deltas in native mode, flags stay 0/1 - each decided for all register/memory valuations of its cell in both packages. The numerical semantics of the 256 opcodes (ALU results, flag values, in-bank address arithmetic, pushed bytes) are not decided by any static argument in reach and are not claimed.",
    note="Oracles: ref/isa65816.json, ref/isa_effects.json (authored from the WDC data sheet). Trusted: go/ssa, absint. Values computed by the routines are outside the claim (DESIGN.md section 7).", ref="4 C01"),
+ "C12": dict(level="other", tech="interval + linear-form abstract interpretation of Step cells (cycle bounds, AllCycles accounting, stop status with Stopped partitioned, OnPC/WDM callback arguments and ordering) plus SSA structural rules (module-wide writers of Stopped/AllCycles, natural-loop shape and dominance in RunUntil)",
+   text="Cycle count >= 1 and exact accounting are decided for every register/memory valuation of each opcode x M,X,E x interrupt cell in both packages; the stop clause by cells with Stopped fixed plus a module-wide who-may-store rule; RunUntil by a ranking argument whose premises (budget test, target test dominating Step with no effect between, counter advanced only by Step's first result >= 1, result recomputed after the loop) are structural SSA facts. Together they are an inductive argument, not an exploration; loops are not unrolled.",
+   note="Assumes user callbacks and the Logger do not modify the CPU (outside the library); flags 0/1 (C01/flags01). cpualt declares OnPC but never consults it: the OnPC clause is checked for the interpreter that dispatches it.", ref="4 C12"),
 }
 reasons_pending = "no check is registered for this property at this commit (machinery not built yet); see DESIGN.md section 4 for the planned static rules"
 
